@@ -17,13 +17,14 @@ BUILT = {
             'dumped as ZINC and parsed back; the result is compared with the input model by a comparator written for this '
             'harness (exact kinds, exact numbers/dates/times/instants/offsets/zone names, coordinates to six decimals). A '
             'deterministic catalogue covers boundary payloads, every zone and every kind x position cell. Exploration: '
-            'finds counterexamples, proves nothing.',
+            'finds counterexamples, proves nothing. Part independent-results: the caller overwrites every mutable part of '
+            'the parsed and of the dumped grids; a second parse of the same text and a further round trip must be unaffected.',
             'Trusts vf.model.to_model/from_model and the domain restrictions listed in DESIGN.md 1.4.',
             'DESIGN.md 3/C01'),
     'C02': ('hypothesis-generated model grids + deterministic catalogue, JSON round-trip oracle x {text, bytes, pre-decoded} input',
             'Same generators as C01 through JSON mode; input handed back as text, bytes in utf-8/16/32, or the pre-decoded '
             'object; six-decimal tolerance only on float payloads; Remove spelling per version checked on the emitted JSON. '
-            'Exploration only.',
+            'Exploration only. Part independent-results as in C01, plus: modifying a parsed grid must not change the pre-decoded input.',
             'Trusts vf.model and the stdlib json module; tolerance rule abs(a-b) <= 5e-7 + 1e-12|a|.',
             'DESIGN.md 3/C02'),
     'C19': ('exhaustive pair/triple enumeration over a value catalogue + hypothesis pairs; generated grids vs all single-position edits',
@@ -31,14 +32,16 @@ BUILT = {
             'text-like kind are checked for: no exception (except Quantity unit mismatch), complementarity, symmetry, '
             'reflexivity, text-like kinds pairwise unequal, equal-hash, singleton identity under copy. Generated grids must '
             'equal their copy, deepcopy and both round trips and be unequal, without raising, to every single-position edit '
-            '(row, column name, metadata name, cell of another kind, cell content).',
+            '(row, column name, metadata name; in every row one cell of another kind / other content / removed; a date-time cell moved by a day, '
+            'to a zone with another offset and to a zone sharing its offset).',
             'NaN excluded from reflexivity; XStr equality beyond the laws not asserted; version/order not "material".',
             'DESIGN.md 3/C19'),
     'C20': ('exhaustive operator x operand catalogue product + hypothesis ints/floats, differential oracle against the bare value',
             'Every arithmetic/bitwise/comparison/unary/conversion operator is evaluated on Quantity(v,u) and on v for the full '
             'product of a boundary catalogue (both operand orders, Quantity-Quantity, four units, three-argument pow); outcomes '
             '(type+repr or exception type) must be identical; Quantity-vs-Quantity comparisons must raise TypeError iff units '
-            'differ. Exhaustive over the catalogue, sampled beyond it.',
+            'differ. Exhaustive over the catalogue, sampled beyond it. Also 14 pairs of neighbouring numbers (last place, 1e-10 relative) under the six '
+            'comparisons, and the comparison/arithmetic/unary catalogue again under hszinc.use_pint(True) for units pint knows.',
             'Trusts CPython numeric semantics as the reference; shift/exponent magnitudes bounded.',
             'DESIGN.md 3/C20'),
     'C03': ('grammar-directed independent ZINC writer with hypothesis-drawn spelling plans; differential oracle: hszinc.parse vs the denoted model',
@@ -116,7 +119,8 @@ BUILT = {
             'precedence) is run on a grid holding all 7x7x5 valuations of its tags (absent, null, marker, equal, below, above, '
             'other kind, valid/dangling/non-Ref); Hypothesis adds deeper ASTs with nine literal kinds, keyword-prefixed tag '
             'names, two-level paths, spelling/parenthesis variation and limit. Selected rows (identity, order, limit), carried '
-            'header and an untouched source grid are compared with an evaluator written from the Haystack filter semantics.',
+            'header and an untouched source grid are compared with an evaluator written from the Haystack filter semantics. A result '
+            'filtered again follows references within the result; rows added to a result are not reachable from the source.',
             'Semantics pinned in DESIGN.md Appendix C; ids are plain strings; Ref equality by name, display-less.',
             'DESIGN.md 3/C11'),
     'C12': ('payload x slot x shape table + hypothesis fragment soup + atheris/libFuzzer campaigns; canary objects, sys.addaudithook events and global-state snapshots as oracle',
@@ -135,7 +139,7 @@ BUILT = {
             '<= 4 switches (quick: ~17 yield points per thread, 5,238 schedules; thorough: ~37, 50,025) and all 3-thread schedules '
             'with <= 3 are enumerated, more are drawn by Hypothesis; every '
             'thread must get its own filter\'s rows, also on re-evaluation. Histories of evaluate/re-evaluate/call-held-function/'
-            'gc/row replacement over filter pools (11 kinds of filters incl. a->b paths, bool/date/quantity/date-time/Ref literals, '
+            'gc/row replacement over filter pools (12 kinds of filters incl. literals that differ in kind only (true/1/1kW), a->b paths, bool/date/quantity/date-time/Ref literals, '
             'same-token pairs, literal-only pairs, a hot filter) are run against an lru_cache(8) re-wrap and the real capacity 500 '
             '(1,700 filters).',
             'Line granularity; C-level operations are atomic under the GIL.',
